@@ -432,9 +432,8 @@ func ruleSamplesReach(w *World, r *Report, pfx string) {
 			if inner == nil || outer == nil {
 				bad = "the lookup is not done for every decorator of every group"
 			} else {
-				ci, co := classifyCountingLoop(inner), classifyCountingLoop(outer)
-				k, isK := constInt(co.bound)
-				if !ci.ok || ci.step != 1 || !co.ok || co.step != 1 || !isK || k != 2 {
+				ci := classifyCountingLoop(inner)
+				if !ci.ok || ci.step != 1 || !w.loopCoversGroups(outer) {
 					bad = "the lookup loops do not cover both groups completely"
 				}
 			}
